@@ -44,7 +44,17 @@ NPLANS = (CASES + PER_PLAN - 1) // PER_PLAN
 CONFIGS = len(TLS) * len(PLUGINS)
 CONF_PER_PLAN = 6
 NSRV = (CONFIGS + CONF_PER_PLAN - 1) // CONF_PER_PLAN
-COUNT = {'quick': NPLANS + NSRV, 'thorough': NPLANS + NSRV}
+# third pass: several requests on ONE session while the plugin's answer
+# changes between them (user removed, service down, groups changed): every
+# request must be judged by the answer the plugin gives at that moment.
+# All sequences of 2 and 3 behaviours, complete.
+DYN = ['ok', 'ok2', 'ok_nogroups', 'user404', 'groups404', 'down_users',
+       'down_groups', 'badjson']
+SEQS = [(a, b) for a in DYN for b in DYN] + \
+    [(a, b, c) for a in DYN for b in DYN for c in DYN]
+SEQ_PER_PLAN = 48
+NSEQ = (len(SEQS) + SEQ_PER_PLAN - 1) // SEQ_PER_PLAN
+COUNT = {'quick': NPLANS + NSRV + NSEQ, 'thorough': NPLANS + NSRV + NSEQ}
 BUDGET_S = {'quick': 80, 'thorough': 600}
 DETERMINISM = {'quick': 8, 'thorough': 30}
 CHUNK = 4
@@ -57,13 +67,17 @@ RULE = ('complete product: %d certificate shapes (absent; 0/1/2 distinct '
         'and all executed a second time with the session constructed by the '
         'real KmipServer from a configuration file (enable_tls_client_auth '
         'given in the file, as a constructor argument, or left to its '
-        'default). Non-trivial: every case (each is a distinct '
+        'default); plus ALL sequences of 2 and 3 plugin answers over %d '
+        'behaviours on ONE session (the answer changes between requests of '
+        'a connection). Non-trivial: every case (each is a distinct '
         'configuration); distinct = case number (+ "srv").' % (
-            len(CERTS), len(PLUGINS), BEHAVIOURS, len(REQUESTS), CASES))
+            len(CERTS), len(PLUGINS), BEHAVIOURS, len(REQUESTS), CASES,
+            len(DYN)))
 PROBES = ['engine_entered', 'auth_refused', 'second_plugin_vouched',
           'plugin_failed_then_refused', 'cn_fallback_without_plugins',
           'users_5xx_recorded', 'sessions_made_by_kmip_server',
-          'tls_flag_from_default', 'tls_flag_from_kwarg']
+          'tls_flag_from_default', 'tls_flag_from_kwarg',
+          'requests_on_reused_session']
 REAL_VS_STUB = {
     'real': ['KmipSession._handle_message_loop + authenticate',
              'KmipServer.__init__/start/serve/_setup_connection_handler/stop '
@@ -97,6 +111,10 @@ def case_number(ce, tl, pl, rq):
 
 
 def generate(rng, tier, index):
+    if index >= NPLANS + NSRV:
+        lo = (index - NPLANS - NSRV) * SEQ_PER_PLAN
+        return {'seqs': list(range(lo, min(len(SEQS), lo + SEQ_PER_PLAN))),
+                'seed': 1}
     if index >= NPLANS:
         lo = (index - NPLANS) * CONF_PER_PLAN
         return {'configs': list(range(lo, min(CONFIGS, lo + CONF_PER_PLAN))),
@@ -119,8 +137,12 @@ class Slugs(object):
                 raise ValueError('No JSON object could be decoded')
             return self.body
 
+    current = 'ok'      # behaviour of the host 'dyn' right now
+
     def get(self, url, timeout=None, **kw):
         host = url.split('//', 1)[1].split('/', 1)[0]
+        if host == 'dyn':
+            host = Slugs.current
         is_groups = url.endswith('/groups')
         Slugs.calls.append((host, is_groups))
         if host == 'down_users' or (host == 'down_groups' and is_groups):
@@ -172,9 +194,9 @@ def model(cert, tls, plugins):
             continue               # the plugin cannot name the user
         if b == 'users500':
             return ('unjudged',)
-        if b in ('ok', 'ok_nogroups'):
+        if b in ('ok', 'ok2', 'ok_nogroups'):
             return ('enter', 'cn0',
-                    ['grp-ok', 'staff'] if b == 'ok' else None)
+                    None if b == 'ok_nogroups' else ['grp-' + b, 'staff'])
     return ('refuse',)
 
 
@@ -211,16 +233,19 @@ def execute(plan):
             return real(request, credential)
         W.engine.process_request = spy
 
-    def run_case(n, make_session, extra):
-        cert, tls, plugins, rq = case_of(n)
-        der = None
-        if cert is not None:
-            der = net.make_certificate(names_of(cert[0]), cert[1])
-        conn = net.FakeConnection(der)
+    def run_case(n, make_session, extra, explicit=None, reuse=None):
+        cert, tls, plugins, rq = explicit or case_of(n)
         case = {'case': n, 'cert': cert, 'tls': tls,
                 'plugins': plugins, 'request': rq}
         case.update(extra)
-        s = make_session(conn, tls, plugins)
+        if reuse is not None:
+            s, conn = reuse
+        else:
+            der = None
+            if cert is not None:
+                der = net.make_certificate(names_of(cert[0]), cert[1])
+            conn = net.FakeConnection(der)
+            s = make_session(conn, tls, plugins)
         if s is None:
             flag('server-created-no-session', why=None, **case)
             return
@@ -298,7 +323,29 @@ def execute(plan):
             'attrs': [gen.A('Cryptographic Usage Mask', 12)],
             'obj': {'kft': 1, 'value': '22' * 16, 'alg': 3, 'len': 128}}]})
         cases = []
-        if not server_mode:
+        if 'seqs' in plan:
+            install_spy()
+            good_cert = (1, ('client',))
+            for q in plan['seqs']:
+                seq = SEQS[q]
+                conn = net.FakeConnection(net.make_certificate(
+                    names_of(1), ('client',)))
+                s = KmipSession(W.engine, conn, ('10.0.0.9', 1),
+                                name='c17', enable_tls_client_auth=True,
+                                auth_settings=[('auth:slugs', {
+                                    'enabled': 'True',
+                                    'url': 'http://dyn/'})])
+                for k, beh in enumerate(seq):
+                    Slugs.current = beh
+                    cases.append(100000 + q * 4 + k)
+                    probes['requests_on_reused_session'] += 1
+                    run_case(100000 + q * 4 + k, None,
+                             {'sequence': list(seq), 'position': k},
+                             explicit=(good_cert, True, (beh,),
+                                       REQUESTS[(q + k) % len(REQUESTS)]),
+                             reuse=(s, conn))
+            Slugs.current = 'ok'
+        elif not server_mode:
             install_spy()
 
             def direct(conn, tls, plugins):
@@ -342,16 +389,23 @@ def execute(plan):
             'nt_keys': ['%s%d' % ('srv' if server_mode else 'case', n)
                         for n in cases],
             'key': digest, 'digest': digest, 'evals': len(cases),
-            'faults': {'404_user': sum(1 for n in cases
-                                       if 'user404' in case_of(n)[2]),
-                       'unreachable': sum(1 for n in cases
-                                          if 'down_users' in case_of(n)[2]
-                                          or 'down_groups' in case_of(n)[2]),
-                       'bad_json': sum(1 for n in cases
-                                       if 'badjson' in case_of(n)[2])},
+            'faults': {'404_user': sum(1 for n in cases if n < 100000
+                                       and 'user404' in case_of(n)[2]),
+                       'unreachable': sum(1 for n in cases if n < 100000 and
+                                          ('down_users' in case_of(n)[2]
+                                           or 'down_groups' in
+                                           case_of(n)[2])),
+                       'bad_json': sum(1 for n in cases if n < 100000
+                                       and 'badjson' in case_of(n)[2]),
+                       'plugin_answer_changed_mid_session': sum(
+                           1 for q in plan.get('seqs', [])
+                           for k in range(1, len(SEQS[q]))
+                           if SEQS[q][k] != SEQS[q][k - 1])},
             'probes': probes, 'sim_s': 0.0, 'steps': len(cases),
             'sample': [dict(zip(('cert', 'tls', 'plugins', 'request'),
-                                case_of(n))) for n in cases[:3]],
+                                case_of(n))) for n in cases[:3]
+                       if n < 100000] or [list(SEQS[q])
+                                          for q in plan['seqs'][:3]],
         }
     finally:
         W.close()
